@@ -297,7 +297,9 @@ class Cluster:
                     ret = self.env.process(task.do_work(self.env, machine,
                                                         predecessor_allocations))
                     yield self.env.timeout(1)
-            if ret.triggered:
+            # The task body ends one step before the finish time it records
+            # (aft = now + 1); keep the machine until that time is reached.
+            if ret.triggered and task.aft <= self.env.now:
                 # machine.stop_task(task)
                 self._clusters[c]['tasks']['running'].remove(task)
                 self._clusters[c]['usage_data']['running_tasks'] -= 1
